@@ -293,15 +293,19 @@ _more("C08", "enum", "derive-missing-enum", "harnesses", ["derive_deffirst_2", "
 _more("C09", "enum", "derive-unknown-enum", "harnesses", _NEW_ENUMS)
 _more("C10", "enum", "derive-enum-enum", "harnesses", _NEW_ENUMS)
 _more("C11", "enum", "derive-fns-enum", "harnesses", ["derive_ferr10_2"])
-_more("C12", "enum", "derive-total-enum", "harnesses", _NEW_STRUCTS + _NEW_ENUMS + ["derive_deffirst_3"])
+_more("C12", "enum", "derive-total-enum", "harnesses", _NEW_STRUCTS + _NEW_ENUMS + ["derive_deffirst_3", "derive_refs13_2", "derive_cfrom14"])
+_more("C11", "enum", "derive-fns-enum", "harnesses", ["derive_refs13_2", "derive_refs13_3", "derive_cfrom14"])
+_more("C11", "kani", "derive-fns", "thorough_filters", ["h_derive::proofs::derive_refs13_2::check", "h_derive::proofs::derive_cfrom14::check"])
+for _p in ("C01", "C02", "C03", "C04"):
+    _more(_p, "enum", "derive-core-enum", "harnesses", ["derive_refs13_2", "derive_cfrom14"])
 _more("C15", "enum", "derive-order-enum", "harnesses", ["order_camel_3", "order_lower_3", "order_deffirst_3", "order_tagged_3", "order_tagdeny_3"])
 # Kani (thorough tier) on the new catalogue types; derive_ferr10_2 also in C11's quick tier
 for _p, _g in (("C08", "derive-missing"), ("C12", "derive-total")):
     _more(_p, "kani", _g, "thorough_filters", ["h_derive::proofs::derive_deffirst_2::check"])
-_more("C09", "kani", "derive-unknown", "thorough_filters", ["h_derive::proofs::derive_tagdeny_first::check", "h_derive::proofs::derive_tagdeny_last::check"])
+_more("C09", "kani", "derive-unknown", "thorough_filters", ["h_derive::proofs::derive_tagdeny_first::check"])   # derive_tagdeny_last: > 9 GB under CBMC, native execution only
 _more("C11", "kani", "derive-fns", "filters", ["h_derive::proofs::derive_ferr10_2::check"])
 _DERIVE_VERUS["ce_harnesses"].update({"for DefFirst<": ["derive_deffirst_2", "derive_deffirst_3"], "for TagDeny<": ["derive_tagdeny_first", "derive_tagdeny_last"]})
-_R3_TEXT = " Added after the third batch of seeded changes: a struct whose `default` field is declared BEFORE its required fields (DefFirst; the derive zips per-field token lists by index), a field-level error type (`error = Rec2` on a field, with and without try_from: Ferr10) and an internally tagged enum with deny_unknown_fields (TagDeny: the accepted list of a variant is its own keys, never the tag) -- DefFirst and TagDeny also in the Verus catalogue (unbounded payloads)."
+_R3_TEXT = " Added after the third batch of seeded changes: a struct whose `default` field is declared BEFORE its required fields (DefFirst; the derive zips per-field token lists by index), a field-level error type (`error = Rec2` on a field, with and without try_from: Ferr10) and an internally tagged enum with deny_unknown_fields (TagDeny: the accepted list of a variant is its own keys, never the tag) -- DefFirst and TagDeny also in the Verus catalogue (unbounded payloads); by-reference conversion functions (`try_from(&T)`, `from(&T)`), `map` on a required field (Refs13) and container-level `from` (Cfrom14)."
 for _p in ("C07", "C08", "C09", "C10", "C11", "C12"):
     PROPS[_p]["text"] += _R3_TEXT
 PROPS["C11"]["text"] += " The hand-over of a conversion error to the container's error type is compared event by event (obligation user_function_errors_handed_over_at_the_field_or_container_location): same position in the trace, same location."
@@ -332,6 +336,16 @@ PROPS["C14"] = {
                     "R10: String + &str appends", "value_kinds_description_json, value_description_with_kind_json, value_description_with_kind_query_param, did_you_mean are functions of their arguments (opaque stand-ins); serde_json::to_string never fails on a Value",
                     "ErrorKind / Value / IntoValue / Sequence / Map / ValuePointerRef are the repository's own definitions (extracted); serde_json::Value is an opaque stand-in"],
 }
+
+# C05: text of the domain errors and string contents, bounded
+PROPS["C05"]["units"] = PROPS["C05"]["units"] + [{"kind": "enum", "group": "scalar-text", "harnesses": ["scalar_messages", "scalar_text_contents"],
+    "bounds": "scalar_messages: 24 integer / NonZero targets x 33 integer payloads around every bound (2^8, 2^16, 2^32, 2^63, 2^64 +-1, their negative halves, 0, +-70000); scalar_text_contents: all 156 strings of 0..=3 scalar values over {a, e-acute, euro sign, an emoji, a backtick}"}]
+PROPS["C05"]["technique"] += " + bounded exhaustive native execution for the text of the domain errors and for string / char contents"
+PROPS["C05"]["text"] += " BOUNDED part (native execution, labelled so): for every integer / NonZero target and 33 payloads around the bounds, the detail message of the domain error contains the received number and the violated bound (MAX or MIN of the target) between backticks, or names the zero and a bound; for all 156 strings of up to three 1-4 byte characters, String returns the same text, char succeeds exactly on one-character strings with that character and otherwise names the length and the string (or says it is empty)."
+PROPS["C05"]["level_note"] = "Complete for numbers/bool/unit/kinds (no unwinding bound is hit: unwinding assertions are on). Message wording of the domain errors and multi-character string / char contents: bounded exhaustive execution (not proved)."
+for _u in PROPS["C05"]["units"]:
+    if _u.get("group") == "scalars":
+        _u["assumptions"] = [a.replace("char contents beyond the empty string (str::chars / count under CBMC ran > 20 min per string) are NOT decided here", "char contents beyond the empty string are covered by the bounded native unit scalar-text only (str::chars / count under CBMC ran > 20 min per string)") for a in _u["assumptions"]]
 
 NOT_APPLICABLE = {
     "C20": "HTTP extractors are three-line async compositions of actix-web/axum extractors with deserr::deserialize; neither installed verifier can run or specify the frameworks (futures, pinning, runtime), so every obligation would be an assumed contract on actix/axum with nothing left to prove; the features are off by default and not compiled in the baseline.",
